@@ -86,6 +86,14 @@ def params_sim(tier):
 
 
 # ------------------------------------------------------------------------------------------------------------------
+def export_models(d, jobs):
+    """model check + export each DISTINCT (model, params) once, in parallel processes; jobs: [(cfg, params)]"""
+    uniq = {}
+    for cfg, params in jobs:
+        uniq.setdefault(json.dumps([cfg.model(), params], sort_keys=True), (cfg, params))
+    vlib.pmap_proc(vecpipe.mc_export_job, [(d, cp[0].model(), cp[1], cp[0].name) for cp in uniq.values()], workers=6)
+
+
 def suite_dir(name, tier, seed):
     h = vlib.inputs_hash()
     return workdir(h, '%s_%s_%d' % (name, tier, seed)), h
@@ -216,6 +224,7 @@ def swap2_configs(tier):
     q = [
         ('x_s2_v_NTR', 'NTR', 'amcled', [S('small', 2, 'u32'), S('vector', 0, 'u32')]),
         ('x_s2u8_v_TR', 'TR', 'amcled', [S('small', 2, 'u8'), S('vector', 0, 'u32')]),
+        ('x_s2u8_v_NTRM', 'NTRM', 'stdlike', [S('small', 2, 'u8'), S('vector', 0, 'u32')]),
         ('x_f3_s2_NTR', 'NTR', 'stdlike', [S('fixed', 3), S('small', 2, 'u32')]),
         ('x_v_f2_TR', 'TR', 'stdlike', [S('vector', 0, 'u32'), S('fixed', 2)]),
         ('x_s2_s4_NTR', 'NTR', 'amcled', [S('small', 2, 'u32'), S('small', 4, 'u32')]),
@@ -240,7 +249,7 @@ def suite_swap2(tier, seed):
         params = dict(Vals=[1, 2], MaxLen=3 if tier == 'quick' else 4, MaxCnt=2, Its=['ptr'], RLens=[0, 1], Ops=SWAP2_OPS,
                       WalkLen=300, Alias=False)
         jobs = [(cfg, params) for cfg in swap2_configs(tier)]
-        vlib.pmap_proc(vecpipe.mc_export_job, [(d, c.model(), p, c.name) for c, p in jobs], workers=6)
+        export_models(d, jobs)
 
         def one(job):
             cfg, params = job
@@ -251,6 +260,62 @@ def suite_swap2(tier, seed):
             return r
         return dict(results=pmap(one, jobs, workers=8))
     return cached_suite('swap2', tier, seed, compute)
+
+
+LIMIT_OPS = ('{"ctorDefault", "ctorCount", "ctorCountVal", "ctorIlist", "destroy", "pushBack", "pushBackRv", "emplaceBack", '
+             '"emplace", "insert1", "insert1rv", "insertN", "insertRange", "insertIlist", "appendN", "appendNVal", "appendRange", '
+             '"appendIlist", "assignN", "assignIlist", "resize", "resizeVal", "reserve", "at", "clear", "shrinkToFit", "iterate"}')
+
+
+def limit_configs(tier):
+    q = [
+        ('lim_s2u8_TR', 'TR', 'amcled', [('small', 2, 'u8')], 'dyn'),
+        ('lim_vi8_TC', 'TC', 'stdlike', [('vector', 0, 'i8')], 'dyn'),
+        ('lim_f1_NTR', 'NTR', 'stdlike', [('fixed', 1)], 'fixed'),
+        ('lim_f2_TR', 'TR', 'stdlike', [('fixed', 2)], 'fixed'),
+        ('lim_f3_NTR', 'NTR', 'stdlike', [('fixed', 3)], 'fixed'),
+    ]
+    t = [
+        ('lim_vu8_NTR', 'NTR', 'amcled', [('vector', 0, 'u8')], 'dyn'),
+        ('lim_vi8_NTR', 'NTR', 'stdlike', [('vector', 0, 'i8')], 'dyn'),
+        ('lim_s3u8_TC', 'TC', 'amc', [('small', 3, 'u8')], 'dyn'),
+        ('lim_s1i8_TR', 'TR', 'withrealloc', [('small', 1, 'i8')], 'dyn'),
+        ('lim_f3_TC', 'TC', 'stdlike', [('fixed', 3)], 'fixed'),
+        ('lim_f4_NTR', 'NTR', 'stdlike', [('fixed', 4)], 'fixed'),
+    ]
+    lst = q + (t if tier == 'thorough' else [])
+    out = []
+    for n, e, a, sl, kind in lst:
+        c = ImplCfg(n, e, a, sl)
+        c.limit_kind = kind
+        out.append(c)
+    return out
+
+
+def suite_limit(tier, seed):
+    def compute(d):
+        jobs = []
+        for cfg in limit_configs(tier):
+            if cfg.limit_kind == 'dyn':
+                params = dict(Vals=[1], MaxLen=2, MaxCnt=2 if tier == 'quick' else 3, Its=['ptr', 'input'],
+                              RLens=[0, 1, 2] if tier == 'quick' else [0, 1, 2, 3],
+                              Ops=LIMIT_OPS, WalkLen=200, Near=3, Alias=True)
+            else:
+                n = cfg.slots[0][1]['n']
+                params = dict(Vals=[1, 2], MaxLen=n + 1, MaxCnt=2 if tier == 'quick' else 3,
+                              Its=['ptr', 'input'] if tier == 'quick' else ALL_ITS, RLens=[0, 1, 2, 3], Ops='AllOps', WalkLen=300)
+            jobs.append((cfg, params))
+        export_models(d, jobs)
+
+        def one(job):
+            cfg, params = job
+            md, info = vecpipe.mc_export(d, cfg.model(), params, cfg.name)
+            r = run_cfg_script(d, cfg, os.path.join(md, 'walks.script'), 'walks')
+            r['mc'] = info
+            r['kind'] = 'limit'
+            return r
+        return dict(results=pmap(one, jobs, workers=8))
+    return cached_suite('limit', tier, seed, compute)
 
 
 def suite_fault(tier, seed):
@@ -286,7 +351,7 @@ def suite_fault(tier, seed):
 # ------------------------------------------------------------------------------------------------------------------
 VEC_PROPS = {'C01', 'C02', 'C05', 'C06', 'C07', 'C10'}
 
-RELEVANT_STAT = {'C13': 'ops', 'C14': 'ops', 'C09': 'faults', 'C01': 'ops', 'C02': 'prims', 'C05': 'pristineOps', 'C06': 'allocEvents', 'C07': 'stable', 'C10': 'alias'}
+RELEVANT_STAT = {'C08': 'limitExc', 'C13': 'ops', 'C14': 'ops', 'C09': 'faults', 'C01': 'ops', 'C02': 'prims', 'C05': 'pristineOps', 'C06': 'allocEvents', 'C07': 'stable', 'C10': 'alias'}
 
 
 def make_replay(prop, r, v):
@@ -351,8 +416,12 @@ def evidence_vec(prop, res, extra_notes=None):
 
 
 def run_property(prop, tier, seed):
-    if prop in VEC_PROPS or prop in ('C09', 'C13', 'C14'):
-        res = suite_vec(tier, seed) if prop not in ('C09', 'C13') else dict(results=[], wall=0, cached=True)
+    if prop in VEC_PROPS or prop in ('C08', 'C09', 'C13', 'C14'):
+        res = suite_vec(tier, seed) if prop not in ('C08', 'C09', 'C13') else dict(results=[], wall=0, cached=True)
+        if prop == 'C08':
+            lr = suite_limit(tier, seed)
+            res = dict(results=res['results'] + lr['results'], wall=res.get('wall', 0) + lr.get('wall', 0),
+                       cached=res.get('cached') and lr.get('cached'))
         if prop in ('C13', 'C02', 'C06', 'C14'):
             sr = suite_swap2(tier, seed)
             res = dict(results=res['results'] + sr['results'], wall=res.get('wall', 0) + sr.get('wall', 0),
